@@ -2,6 +2,7 @@ package projsim
 
 import (
 	"fmt"
+	"math/big"
 	"os"
 	"path/filepath"
 	"sort"
@@ -236,6 +237,25 @@ func (s *Sim) ApplyEdit(op Op) EditInfo {
 		}
 		m.Targets[id].K = op.S
 		info.Semantic, info.Affected, info.Applied = true, []int{id}, true
+	case "const-alias":
+		// an integer constant moved by a power of two: the values that fixed-width encodings confuse
+		id := pick(all, op.T)
+		if id < 0 {
+			return info
+		}
+		if v, ok := new(big.Int).SetString(m.Targets[id].K, 10); ok {
+			d := new(big.Int).Lsh(big.NewInt(1), []uint{64, 32, 16, 8, 63, 64}[op.I%6])
+			if v.Sign() > 0 {
+				v.Sub(v, d)
+			} else {
+				v.Add(v, d)
+			}
+			m.Targets[id].K = v.String()
+		} else {
+			// not an integer yet: make it one that sits at a width boundary
+			m.Targets[id].K = []string{"9223372036854775808", "18446744073709551615", "-9223372036854775809", "4294967295", "12345678901234567890", "-1"}[op.I%6]
+		}
+		info.Semantic, info.Affected, info.Applied = true, []int{id}, true
 	case "body":
 		id := pick(all, op.T)
 		if id < 0 {
@@ -451,7 +471,7 @@ func (m *Model) codeFiles() []string {
 // ---- generators ------------------------------------------------------------------------------
 
 var constPool = []string{
-	"7", "300", "256", "65535", "65536", "65580", "255", "1000", "4096", "-5", "70000", "12345678901234567890", "1.5",
+	"7", "300", "256", "65535", "65536", "65580", "255", "1000", "4096", "-5", "70000", "12345678901234567890", "1.5", "9223372036854775808", "18446744073709551615", "-9223372036854775808", "4294967296", "-2147483648", "9223372036854775807",
 	"\"abc\"", "\"abd\"", "b\"xy\"", "(1, \"a\")", "(1, \"b\")", "[1, 2, 300]", "[1, 2, 301]", "[1, 2, 65836]",
 	"{\"a\": 1, \"b\": [2, 300]}", "{\"a\": 1, \"b\": [2, 65836]}", "set([1, 2])", "set([1, 3])", "True", "None", "513", "2",
 	"[[[[[[[[[[[[1]]]]]]]]]]]]", "[[[[[[[[[[[[2]]]]]]]]]]]]", "{\"d\": ((((((((((((\"x\",),),),),),),),),),),),)}", "{\"d\": ((((((((((((\"y\",),),),),),),),),),),),)}",
@@ -587,7 +607,7 @@ var longPrefix = strings.Repeat("shared prefix 0123456789 ", 8)
 
 var contentPool = []string{"one\n", "two\n", longPrefix + "A\n", "three", longPrefix + "B\n", "", "one\n", longPrefix + "A\n", "one\ntwo\n", longPrefix + "C"}
 
-var semanticEdits = []string{"src-rm", "src-new", "const", "body", "helper-const", "helper-code", "dir-add", "dir-del", "dir-rename", "dir-edit", "dep-add", "dep-del", "ord-add", "ord-del", "ord-add", "src-add", "src-del", "gen-del", "flag", "src-revert", "const", "src-new"}
+var semanticEdits = []string{"src-rm", "src-new", "const", "body", "helper-const", "helper-code", "dir-add", "dir-del", "dir-rename", "dir-edit", "dep-add", "dep-del", "ord-add", "ord-del", "ord-add", "src-add", "src-del", "gen-del", "flag", "src-revert", "const", "src-new", "const-alias"}
 var noopEdits = []string{"src-same", "src-recreate", "comment", "blank", "doc", "unrelated-src", "dir-recreate"}
 
 // GenEdit draws an edit op of the given class list.
